@@ -211,6 +211,10 @@ func (p *c05) Run(w *lib.Worker, idx int, r *lib.Rand) lib.Case {
 				v, _ := sut.Value(cl.inst)
 				res := sharedSchemas[cl.which].Validate(v)
 				digest = schemataDigest(res)
+				runtime.Gosched()
+				if again := schemataDigest(res); again != digest {
+					digest += "|changed-after-return:" + again
+				}
 				return sut.FromResult(res)
 			})
 			return o.Key() + "|schemata=" + digest
@@ -234,7 +238,12 @@ func (p *c05) Run(w *lib.Worker, idx int, r *lib.Rand) lib.Case {
 			e1 := validate.Pattern("p", "body", cl.data, cl.pat)
 			e2 := validate.Enum("p", "body", cl.data, []interface{}{"a", "foo", 1})
 			e3 := validate.FormatOf("p", "body", "date", cl.data, nil)
-			return fmt.Sprintf("%v|%v|%v", e1 == nil, e2 == nil, e3 == nil)
+			// typed string lists, with and without a duplicate (every goroutine rejects some and accepts others)
+			e4 := validate.UniqueItems("p", "body", []string{cl.data, "u1", cl.pat, "u2"})
+			e5 := validate.UniqueItems("p", "body", []string{"u1", cl.data, "u2", cl.data})
+			e6 := validate.UniqueItems("p", "body", []interface{}{cl.data, 1.0, "u2", 1.0})
+			e7 := validate.MinLength("p", "body", cl.data, 2)
+			return fmt.Sprintf("%v|%v|%v|%v|%v|%v|%v", e1 == nil, e2 == nil, e3 == nil, e4 == nil, e5 == nil, e6 == nil, e7 == nil)
 		}
 	}
 	// sequential references, before any goroutine starts
@@ -360,15 +369,30 @@ func schemataDigest(res *validate.Result) string {
 	if res == nil {
 		return "nil"
 	}
+	// the content of each recorded schema is read as well (type, number of properties, default): a recorded schema
+	// which still belongs to somebody else is rewritten under the reader (a race, and another digest)
+	sig := func(l []*spec.Schema) string {
+		out := make([]string, 0, len(l))
+		for _, sc := range l {
+			if sc == nil {
+				out = append(out, "nil")
+				continue
+			}
+			out = append(out, fmt.Sprintf("%v/%d/%d/%v/%s", sc.Type, len(sc.Properties), len(sc.PatternProperties), sc.Default, sc.Pattern))
+		}
+		sort.Strings(out)
+		return strings.Join(out, ";")
+	}
 	var parts []string
 	for k, v := range res.FieldSchemata() {
-		parts = append(parts, fmt.Sprintf("f:%s:%d", k.Field(), len(v)))
+		parts = append(parts, fmt.Sprintf("f:%s:%d:%s", k.Field(), len(v), sig(v)))
 	}
 	for k, v := range res.ItemSchemata() {
-		parts = append(parts, fmt.Sprintf("i:%d:%d", k.Index(), len(v)))
+		parts = append(parts, fmt.Sprintf("i:%d:%d:%s", k.Index(), len(v), sig(v)))
 	}
 	sort.Strings(parts)
-	return fmt.Sprintf("root:%d,%s", len(res.RootObjectSchemata()), strings.Join(parts, ","))
+	root := res.RootObjectSchemata()
+	return fmt.Sprintf("root:%d:%s,%s", len(root), sig(root), strings.Join(parts, ","))
 }
 
 func renderCall(cl *c05Call) any {
